@@ -3270,7 +3270,13 @@ impl<'i, R: BufRead> XmlRead<'i> for IoReader<R> {
     fn read_to_end(&mut self, name: QName) -> Result<(), DeError> {
         match self.reader.read_to_end_into(name, &mut self.buf) {
             Err(e) => Err(e.into()),
-            Ok(_) => Ok(()),
+            Ok(_) => {
+                // The end tag was consumed without passing through the trimmer, so
+                // tell it that the last event was not a text: leading whitespace of
+                // the text after the skipped element must be trimmed as usual
+                self.start_trimmer.trim_start = true;
+                Ok(())
+            }
         }
     }
 
@@ -3339,7 +3345,13 @@ impl<'de> XmlRead<'de> for SliceReader<'de> {
     fn read_to_end(&mut self, name: QName) -> Result<(), DeError> {
         match self.reader.read_to_end(name) {
             Err(e) => Err(e.into()),
-            Ok(_) => Ok(()),
+            Ok(_) => {
+                // The end tag was consumed without passing through the trimmer, so
+                // tell it that the last event was not a text: leading whitespace of
+                // the text after the skipped element must be trimmed as usual
+                self.start_trimmer.trim_start = true;
+                Ok(())
+            }
         }
     }
 
